@@ -360,9 +360,9 @@ def run_domain(prop, tier, seed, dom, exe, n, known, shrink_ok, base_answers):
             examine(res, prop, dom, exe, stream, "wrapper-diff", lines, answers, diff_oracle_factory(expected), known, shrink_ok=False)
     if prop == "C05":
         # interval-shaped chains of the modelled domain, with its bound
-        ch = domcommon.widen_chains(seed + 5, max(10, n // 2))
+        ch = domcommon.widen_chains(seed + 5, max(10, n // 3))
         # relational chains, long enough to exceed the bound if the widening does not stabilise
-        rc = X.rel_chains(seed + 6, max(5, n // 6), None, maxvars=(2 if k > 1 else 3), k=k)
+        rc = X.rel_chains(seed + 6, max(4, n // 15), None, maxvars=(2 if k > 1 else 3), k=k)
         if dom.get("asc_widen"):
             ch = [X.ascending_widen(l) for l in ch]
             rc = [X.ascending_widen(l) for l in rc]
